@@ -104,6 +104,9 @@ contract(
     params={"self": "obj:MovingWindow", "self.bandwidth": "int", **_MCS, "X": "real[n,p]"},
     requires=["self.bandwidth >= 1", "self._change_score.min_size >= 1", "self._change_score.min_size <= self.bandwidth"],
     raises={"ValueError": "HASNAN(X) or n < 2 * self.bandwidth"},
+    modifies={"self._change_score._X": "=X", "self._change_score._is_fitted": "=True", "self._change_score.ghost_tok": "int",
+              "self._change_score.ghost_n": "=n", "self._change_score.ghost_p": "=p", "self._change_score.ghost_q": "int"},
+    returns="series:real[n]",
     ensures={
         "score_def": "len(payload(result)) == n and forall(range(n), lambda t: payload(result)[t] == ite(self.bandwidth <= t and t <= n - self.bandwidth, "
                      "AGG3(self._change_score.ghost_tok, t - self.bandwidth, t, t + self.bandwidth), 0))",
@@ -173,3 +176,202 @@ contract(
     },
     props=["C03", "C04", "C10"],
 )
+
+# ------------------------------------------------------------------------------------------------ CircularBinarySegmentation glue
+CBS = "skchange/anomaly_detectors/circular_binseg.py"
+contract(
+    target=f"{CBS}::CircularBinarySegmentation._fit", variant="scale",
+    params={"self": "obj:CircularBinarySegmentation", "self.threshold_scale": "real", "self.min_segment_length": "int",
+            "self.max_interval_length": "int", "X": "real[n,p]", "y": "none"},
+    requires=["self.threshold_scale >= 0", "self.min_segment_length >= 1", "self.max_interval_length >= 1", "p >= 1"],
+    raises={"ValueError": "HASNAN(X) or n < 2 * self.min_segment_length"},
+    ensures={"threshold": "self.threshold_ == self.threshold_scale * (2 * p * LOG(n * self.max_interval_length))"},
+    props=["C15", "C14", "C10"],
+)
+_LS = {"self._anomaly_score": "obj:~BaseLocalAnomalyScore", "self._anomaly_score.min_size": "int"}
+contract(
+    target=f"{CBS}::CircularBinarySegmentation._predict",
+    params={"self": "obj:CircularBinarySegmentation", "self.threshold_": "real", "self.min_segment_length": "int", "self.max_interval_length": "int",
+            "self.growth_factor": "real", **_LS, "X": "real[n,p]"},
+    requires=["self.min_segment_length >= 1", "self.threshold_ >= 0", "self._anomaly_score.min_size >= 1",
+              "self._anomaly_score.min_size <= self.min_segment_length", "self.max_interval_length >= 2 * self.min_segment_length",
+              "self.growth_factor > 1", "self.growth_factor <= 2"],
+    raises={"ValueError": "HASNAN(X) or n < 2 * self.min_segment_length"},
+    ensures={
+        "anomalies_wellformed": "forall(range(len(payload(result))), lambda q: 1 <= payload(result)[q][0] and "
+                                "payload(result)[q][0] + self.min_segment_length <= payload(result)[q][1] and payload(result)[q][1] <= n - 1) and "
+                                "forall(range(len(payload(result)) - 1), lambda q: payload(result)[q][1] <= payload(result)[q + 1][0])",
+        "fitted_on_X": "self._anomaly_score._is_fitted == True and self._anomaly_score.ghost_n == n",
+    },
+    props=["C09", "C04", "C10"],
+)
+
+# ------------------------------------------------------------------------------------------------ MovingWindow._predict
+contract(
+    target=f"{MW}::MovingWindow._predict",
+    params={"self": "obj:MovingWindow", "self._is_fitted": "bool=True", "self.bandwidth": "int", "self.threshold_": "real",
+            "self.min_detection_interval": "int", **_MCS, "X": "real[n,p]"},
+    requires=["self.bandwidth >= 1", "self._change_score.min_size >= 1", "self._change_score.min_size <= self.bandwidth",
+              "self.min_detection_interval >= 1"],
+    raises={"ValueError": "HASNAN(X) or n < 2 * self.bandwidth"},
+    ensures={
+        # changepoints are positions whose score (the transform's score of this X) exceeds the fitted threshold
+        "changepoints_above_threshold": "forall(range(len(payload(result))), lambda q: 0 <= payload(result)[q] and payload(result)[q] < n and "
+                                        "payload(self.scores)[payload(result)[q]] > self.threshold_)",
+        "scores_are_the_transform": "len(payload(self.scores)) == n and forall(range(n), lambda t: payload(self.scores)[t] == "
+                                    "ite(self.bandwidth <= t and t <= n - self.bandwidth, "
+                                    "AGG3(self._change_score.ghost_tok, t - self.bandwidth, t, t + self.bandwidth), 0))",
+    },
+    props=["C08", "C04", "C10"],
+)
+
+# ------------------------------------------------------------------------------------------------ CAPA._fit (penalties)
+contract(
+    target=f"{CP}::CAPA._fit",
+    params={"self": "obj:CAPA", "self.collective_penalty_scale": "real", "self.point_penalty_scale": "real", "self.min_segment_length": "int",
+            "self._collective_saving": "obj:~BaseSaving", "self._collective_saving.ghost_params_per_variable": "int", "X": "real[n,p]", "y": "none"},
+    requires=["self.collective_penalty_scale >= 0", "self.point_penalty_scale >= 0", "self.min_segment_length >= 2", "p >= 1",
+              "self._collective_saving.ghost_params_per_variable >= 1"],
+    uses=["AX_LOG_ge0(n)"],
+    raises={"ValueError": "HASNAN(X) or n < self.min_segment_length"},
+    ensures={
+        # C15: collective penalty == scale * (k + 2 sqrt(k log n) + 2 log n) with k parameters per segment
+        "collective_penalty": "self.collective_penalty_ == self.collective_penalty_scale * (self._collective_saving.ghost_params_per_variable * p"
+                              " + 2 * SQRT(self._collective_saving.ghost_params_per_variable * p * LOG(n)) + 2 * LOG(n))",
+        "point_penalty": "self.point_penalty_ == self.point_penalty_scale * (self._collective_saving.ghost_params_per_variable * p) * p * LOG(n)",
+    },
+    props=["C15", "C14", "C10"],
+)
+
+# ------------------------------------------------------------------------------------------------ MVCAPA glue (C16, C03, C04, C15)
+MVP = "skchange/anomaly_detectors/mvcapa.py"
+_KIND = {"dense": 0, "sparse": 1, "intermediate": 2, "combined": 3}
+_PALPHA = {   # alpha of the built-in penalties (p >= 2) as proved / assumed in penalties.py
+    "dense": lambda n, p, k, sc: f"({sc} * ((({p}) * ({k})) + 2 * SQRT((({p}) * ({k})) * LOG({n})) + 2 * LOG({n})))",
+    "sparse": lambda n, p, k, sc: f"(2 * ({sc}) * LOG({n}))",
+    "intermediate": lambda n, p, k, sc: "0",
+    "combined": lambda n, p, k, sc: "0",
+}
+
+
+def _msav(pre):
+    return {pre: "obj:~BaseSaving", f"{pre}.min_size": "int", f"{pre}.ghost_params_per_variable": "int", f"{pre}.ghost_per_variable": "bool=True"}
+
+
+def _cols_ok(lst):
+    return (f"forall(range(len({lst})), lambda a: 1 <= len({lst}[a][2]) and len({lst}[a][2]) <= p and "
+            f"forall(range(len({lst}[a][2])), lambda r: 0 <= {lst}[a][2][r] and {lst}[a][2][r] < p) and "
+            f"forall(range(len({lst}[a][2])), range(len({lst}[a][2])), lambda r, r2: implies(r != r2, {lst}[a][2][r] != {lst}[a][2][r2])))")
+
+
+def _topk(lst, tok):
+    return (f"forall(range(len({lst})), lambda a: forall(range(len({lst}[a][2])), lambda r: "
+            f"SC2({tok}, {lst}[a][0], {lst}[a][1], {lst}[a][2][r]) == SORTV({tok}, {lst}[a][0], {lst}[a][1], r)))")
+
+
+def _argmaxk(lst, tok, alpha, bid, body_only=False):
+    C = lambda k: f"CUMPEN({tok}, {lst}[a][0], {lst}[a][1], {alpha}, {bid}, {k})"
+    body = (f"forall(range(p), lambda k: {C('k')} <= {C(f'len({lst}[a][2]) - 1')}) and "
+            f"forall(range(len({lst}[a][2]) - 1), lambda k: {C('k')} < {C(f'len({lst}[a][2]) - 1')})")
+    return body if body_only else f"forall(range(len({lst})), lambda a: {body})"
+
+
+for _cp in _KIND:
+    for _pp in _KIND:
+        _kc, _kp = "collective_saving.ghost_params_per_variable", "point_saving.ghost_params_per_variable"
+        _sa = _PALPHA["sparse"]("n", "p", _kc, "collective_penalty_scale")
+        _sb = f"PEN_BID(1, n, p, {_kc}, collective_penalty_scale)"
+        _pa = _PALPHA[_pp]("n", "p", _kp, "point_penalty_scale")
+        _pb = f"PEN_BID({_KIND[_pp]}, n, p, {_kp}, point_penalty_scale)"
+        _tc, _tp = "collective_saving.ghost_tok", "point_saving.ghost_tok"
+        contract(
+            target=f"{MVP}::run_mvcapa", variant=f"{_cp}/{_pp}",
+            params={"X": "real[n,p]", **_msav("collective_saving"), **_msav("point_saving"),
+                    "collective_penalty": f"str={_cp}", "collective_penalty_scale": "real", "point_penalty": f"str={_pp}", "point_penalty_scale": "real",
+                    "min_segment_length": "int", "max_segment_length": "int"},
+            requires=["p >= 2", "min_segment_length >= 2", "max_segment_length >= min_segment_length", "n >= min_segment_length",
+                      "collective_penalty_scale >= 0", "point_penalty_scale >= 0", f"{_kc} >= 1", f"{_kp} >= 1",
+                      "collective_saving.min_size >= 1", "collective_saving.min_size <= min_segment_length", "point_saving.min_size == 1"],
+            modifies={**_FITM("collective_saving"), **_FITM("point_saving")},
+            returns="(real[n],list[(int,int,int[])],list[(int,int,int[])])",
+            ensures={
+                "scores_are_optimal": f"forall(range(1, n + 1), lambda T: result[0][T - 1] == CG({_tc}, {_tp}, T))",
+                "collective_lengths": "forall(range(len(result[1])), lambda q: 0 <= result[1][q][0] and result[1][q][1] <= n and "
+                                      "min_segment_length <= result[1][q][1] - result[1][q][0] and result[1][q][1] - result[1][q][0] <= max_segment_length)",
+                "point_lengths": "forall(range(len(result[2])), lambda q: 0 <= result[2][q][0] and result[2][q][1] == result[2][q][0] + 1 and result[2][q][1] <= n)",
+                "disjoint": "forall(range(len(result[1])), range(len(result[2])), lambda q, r: result[1][q][1] <= result[2][r][0] or result[2][r][1] <= result[1][q][0]) and "
+                            "forall(range(len(result[1])), range(len(result[1])), lambda q, r: implies(q < r, result[1][r][1] <= result[1][q][0])) and "
+                            "forall(range(len(result[2])), range(len(result[2])), lambda q, r: implies(q < r, result[2][r][1] <= result[2][q][0]))",
+                "columns_valid_distinct": _cols_ok("result[1]") + " and " + _cols_ok("result[2]"),
+                "top_k_in_order": _topk("result[1]", _tc) + " and " + _topk("result[2]", _tp),
+                # collective anomalies: k maximises the cumulative saving minus the SPARSE penalty (whatever collective_penalty is)
+                "collective_argmax_k_sparse_penalty": _argmaxk("result[1]", _tc, _sa, _sb),
+                # point anomalies: ... minus the POINT penalty
+                "point_argmax_k_point_penalty": _argmaxk("result[2]", _tp, _pa, _pb),
+            },
+            ghost=[
+                ("after:point_saving.fit(X)",
+                 f"assume(CAPA_THEORY({_tc}, collective_alpha, arrid(collective_betas), {_tp}, point_alpha, arrid(point_betas), min_segment_length, max_segment_length, n))\n"
+                 f"assume(CAPA_SUBADD({_tc}, collective_alpha, arrid(collective_betas), collective_alpha + vsum(collective_betas), min_segment_length, max_segment_length, n))"),
+                ("after:point_anomalies = find_affected_components(*",
+                 f"assume(ARRID_DEF(sparse_betas))\nassume(ARRID_DEF(point_betas))\n"
+                 f"assume(PEN_BID_DEF(1, n, p, {_kc}, collective_penalty_scale))\nassume(PEN_BID_DEF({_KIND[_pp]}, n, p, {_kp}, point_penalty_scale))\n"
+                 f"assert forall(range(len(collective_anomalies)), lambda a: using(L_cumpen_ext({_tc}, collective_anomalies[a][0], collective_anomalies[a][1], "
+                 f"sparse_alpha, arrid(sparse_betas), {_sb}, p), {_argmaxk('collective_anomalies', _tc, _sa, _sb, True)}))\n"
+                 f"assert forall(range(len(point_anomalies)), lambda a: using(L_cumpen_ext({_tp}, point_anomalies[a][0], point_anomalies[a][1], "
+                 f"point_alpha, arrid(point_betas), {_pb}, p), {_argmaxk('point_anomalies', _tp, _pa, _pb, True)}))"),
+            ],
+            props=["C16", "C03", "C04", "C15"],
+        )
+
+contract(
+    target=f"{AB}::SubsetCollectiveAnomalyDetector._format_sparse_output", assumed=True, level="A",
+    params={"collective_anomalies": "list[(int,int,int[])]", "closed": "str"},
+    returns="=frame_of(collective_anomalies)",
+    note="pandas: the returned frame lists exactly the given (start, end, columns) triples, in order (ilocs, labels 1..K, icolumns) (bounded: C04/C05/C16)",
+)
+for _cp in _KIND:
+    for _pp in _KIND:
+        _kc, _kp = "self._collective_saving.ghost_params_per_variable", "self._point_saving.ghost_params_per_variable"
+        _sa = _PALPHA["sparse"]("n", "p", _kc, "self.collective_penalty_scale")
+        _sb = f"PEN_BID(1, n, p, {_kc}, self.collective_penalty_scale)"
+        _pa = _PALPHA[_pp]("n", "p", _kp, "self.point_penalty_scale")
+        _pb = f"PEN_BID({_KIND[_pp]}, n, p, {_kp}, self.point_penalty_scale)"
+        _tc, _tp = "self._collective_saving.ghost_tok", "self._point_saving.ghost_tok"
+        _R = "payload(result)"
+        _isp = f"({_R}[a][1] == {_R}[a][0] + 1)"
+        Cc = lambda k: f"CUMPEN({_tc}, {_R}[a][0], {_R}[a][1], {_sa}, {_sb}, {k})"
+        Cp = lambda k: f"CUMPEN({_tp}, {_R}[a][0], {_R}[a][1], {_pa}, {_pb}, {k})"
+        _K1 = f"len({_R}[a][2]) - 1"
+        contract(
+            target=f"{MVP}::MVCAPA._predict", variant=f"{_cp}/{_pp}",
+            params={"self": "obj:MVCAPA", "self.collective_penalty": f"str={_cp}", "self.collective_penalty_scale": "real",
+                    "self.point_penalty": f"str={_pp}", "self.point_penalty_scale": "real",
+                    "self.min_segment_length": "int", "self.max_segment_length": "int", "self.ignore_point_anomalies": "bool",
+                    **{"self._collective_saving": "obj:~BaseSaving", "self._collective_saving.min_size": "int",
+                       "self._collective_saving.ghost_params_per_variable": "int", "self._collective_saving.ghost_per_variable": "bool=True"},
+                    **{"self._point_saving": "obj:~BaseSaving", "self._point_saving.min_size": "int",
+                       "self._point_saving.ghost_params_per_variable": "int", "self._point_saving.ghost_per_variable": "bool=True"},
+                    "X": "real[n,p]"},
+            requires=["p >= 2", "self.min_segment_length >= 2", "self.max_segment_length >= self.min_segment_length",
+                      "self.collective_penalty_scale >= 0", "self.point_penalty_scale >= 0", f"{_kc} >= 1", f"{_kp} >= 1",
+                      "self._collective_saving.min_size >= 1", "self._collective_saving.min_size <= self.min_segment_length",
+                      "self._point_saving.min_size == 1"],
+            raises={"ValueError": "HASNAN(X) or n < self.min_segment_length"},
+            ensures={
+                "scores": f"forall(range(1, n + 1), lambda T: payload(self.scores)[T - 1] == CG({_tc}, {_tp}, T))",
+                # C04: reported intervals lie in [0, n], are point anomalies or of admissible length, sorted and pairwise disjoint
+                "anomalies_wellformed": f"forall(range(len({_R})), lambda a: 0 <= {_R}[a][0] and {_R}[a][1] <= n and "
+                                        f"({_isp} or (self.min_segment_length <= {_R}[a][1] - {_R}[a][0] and {_R}[a][1] - {_R}[a][0] <= self.max_segment_length)))",
+                "sorted_disjoint": f"forall(range(len({_R})), range(len({_R})), lambda a, b: implies(a < b, {_R}[a][1] <= {_R}[b][0]))",
+                "ignore_point_anomalies": f"implies(self.ignore_point_anomalies, forall(range(len({_R})), lambda a: self.min_segment_length <= {_R}[a][1] - {_R}[a][0]))",
+                # C16
+                "columns_valid_distinct": _cols_ok(_R),
+                "top_k_in_order": f"forall(range(len({_R})), lambda a: forall(range(len({_R}[a][2])), lambda r: "
+                                  f"SC2(ite({_isp}, {_tp}, {_tc}), {_R}[a][0], {_R}[a][1], {_R}[a][2][r]) == SORTV(ite({_isp}, {_tp}, {_tc}), {_R}[a][0], {_R}[a][1], r)))",
+                "argmax_k": f"forall(range(len({_R})), lambda a: implies({_isp}, "
+                            f"forall(range(p), lambda k: {Cp('k')} <= {Cp(_K1)}) and forall(range({_K1}), lambda k: {Cp('k')} < {Cp(_K1)})) and implies(not {_isp}, "
+                            f"forall(range(p), lambda k: {Cc('k')} <= {Cc(_K1)}) and forall(range({_K1}), lambda k: {Cc('k')} < {Cc(_K1)})))",
+            },
+            props=["C16", "C03", "C04", "C10"],
+        )
